@@ -78,6 +78,14 @@ def _prime(case, op, p, traces):
         must(case, '%s priming call on other traces of the same length' % op, p, other)
 
 
+def _hold(p, traces):
+    """the caller keeps the result while the same object processes another batch of the same shape and dtype: the kept result must not change"""
+    try:
+        p(np.ascontiguousarray(np.roll(traces, 1, axis=1)[::-1]))
+    except Exception:
+        pass
+
+
 def check_combination(ctx, case):
     op, cfg, traces, prec = case['op'], case['cfg'], case['traces'], case['precision']
     t0 = traces.copy()
@@ -91,6 +99,7 @@ def check_combination(ctx, case):
     if traces.shape[0] > 1:
         _prime(case, op, p, traces)
     out = must(case, '%s on %s%s' % (op, traces.dtype, traces.shape), p, gen.L(case, traces))
+    _hold(p, traces)
     n, L = traces.shape
     pairs = _pairs(cfg, L)
     odt = _expected_dtype(traces.dtype, prec)
@@ -295,6 +304,7 @@ def check_timefreq(ctx, case):
         if traces.shape[0] > 1:
             _prime(case, op, p, traces)
         out = must(case, '%s on %s%s' % (op, traces.dtype, traces.shape), p, gen.L(case, traces))
+        _hold(p, traces)
     n, L = traces.shape
     g1 = f1 if f1 is not None else f2
     g2 = f2 if f2 is not None else f1
